@@ -55,13 +55,27 @@ def run_shard(spec, acc):
                gen.OPENERS['three_queued'], gen.OPENERS['backport'],
                gen.OPENERS['backport'], gen.OPENERS['partial_merge'],
                gen.OPENERS['admin_branches'], gen.OPENERS['batch_merge'],
-               gen.OPENERS['queue_conflict']]
+               gen.OPENERS['queue_conflict'],
+               gen.OPENERS['conflict_resolved'],
+               gen.OPENERS['conflict_resolved']]
     if spec['tier'] == 'quick':
         n_hist, jobs, cap = 9, 12, 600
     else:
         n_hist, jobs, cap = 110, 22, 4800
+    # the conflict-resolution flow needs the direct merge path to exercise
+    # the merge helpers' fallbacks: every multi-destination layout, both
+    # merge strategies
+    directed = [({'layout': layout, 'queue_mode': qm,
+                  'cmd_line_options': list(octo)},
+                 gen.OPENERS['conflict_resolved'])
+                for layout in ('d2', 's1d2', 'd1M1d2', 's2d2', 'd4', 'd3')
+                for qm in ('noqueue', 'queue')
+                for octo in ((), ('no_octopus',))]
+    if spec['tier'] == 'quick':
+        directed = [d for d in directed if d[0]['queue_mode'] == 'noqueue' or
+                    d[0]['layout'] in ('d2', 'd3')]
     runner.run_histories(spec, acc, configs(), prof, MONITORS, n_hist, jobs,
-                         openers=openers, soft_cap_s=cap)
+                         openers=openers, soft_cap_s=cap, directed=directed)
 
 
 def finalize(acc, tier, seed):
